@@ -43,6 +43,21 @@ def _internal(jp, name, default, conv):
         return default
 
 
+def _best_index(c, jp):
+    """1-based column of the clearance that set the athlete's best (0: none) - read off the public card, heights and best
+    rather than the private `highest_cleared_index` (whose "none" sentinel and very existence are the library's business:
+    mutant -1 -> -2 of the sweep, benign B02): the first column at the best height that holds a clearance."""
+    try:
+        best = jp.highest_cleared
+        for i, cell in enumerate(jp.attempts_by_height):
+            if 'o' in cell and i < len(c.heights) and c.heights[i] == best:
+                return i + 1
+        return 0
+    except Exception:
+        v = _internal(jp, 'highest_cleared_index', -2, int)
+        return v + 1 if v >= 0 else 0
+
+
 def snapshot(c):
     j = {}
     try:
@@ -54,7 +69,7 @@ def snapshot(c):
         j[str(jp.bib)] = {
             'card': [list(a) for a in jp.attempts_by_height],
             'best': cm(jp.highest_cleared),
-            'bidx': _internal(jp, 'highest_cleared_index', -2, int) + 1,
+            'bidx': _best_index(c, jp),
             'elim': (id(jp) in out) if out is not None else _internal(jp, 'eliminated', False, bool),
             'dism': _internal(jp, 'dismissed', False, bool), 'lim': _internal(jp, 'round_lim', -1, int),
             'cf': _internal(jp, 'consecutive_failures', -1, int), 'p': _internal(jp, '_place', -1, int),
